@@ -12,6 +12,8 @@ CLAIMED = {
             "shapes up to 2x3x2 and 2x1x2x2, every non-empty proper axis subset; N<=2 rows for the data-driven part (quick); more shapes and all orders (thorough)", "DESIGN.md 5/C09"),
     "C10": ("Bounded symbolic model checking of merge_bins (amount as a symbolic integer forked over its range, fractional amount, min_frequency as a symbolic threshold; 1D with/without a gap, 2D/3D per axis and all axes; inplace or not): new bins are unions of adjacent old bins with the stated edges, contents/errors2 are the run sums, totals/missed/other axes/the original are unchanged, gap-crossing and fractional amounts refused.",
             "M<=4 bins 1D, shapes 2x3/3x2 (quick); M<=5, 2x4, 2x2x3 (thorough)", "DESIGN.md 5/C10"),
+    "C06": ("Bounded symbolic model checking of __mul__/__rmul__/__imul__/__truediv__/__itruediv__, normalize, Histogram2D.partial_normalize, HistogramCollection.normalize_bins/normalize_all and Statistics.__mul__ with symbolic contents, errors2, missed, statistics and a symbolic scalar (python and numpy, int and float, sign free): linearity of contents (c) and errors2 (c^2), commutation, (h*c)/c, chains, operand untouched, totals 1/100, row/column/share sums, statistics invariance, and the refusals (h*h, h/h, c/h, arrays, content-negating factors).",
+            "1D M<=2 (quick) / M<=3, 2D 2x2 (quick) / 1x3, 2x1x2, 2x3 (thorough); QF_NRA", "DESIGN.md 5/C06"),
 }
 
 REASONS_NOT_YET = "check not built yet (work in progress; see DESIGN.md section 8 build order)"
